@@ -353,3 +353,89 @@ Fixpoint fbw_write_chunks (w : fbw) (cs : list (list N)) : fbw * fout :=
       | (w', o) => (w', o)
       end
   end.
+
+(* ------------------------------------------- lifetime of getWrittenView() results *)
+(* FixedBufferWriter::buffer is a shared_ptr<FixedArray<uint8_t>>; the FixedArray holds its
+   storage in a shared_ptr<T>.  getWrittenView() builds a FixedArrayView(buffer, 0, cursor) whose
+   member [data] is a FixedArray copy-constructed from *buffer: it SHARES the allocation (it is not
+   a copy of the bytes) and keeps it alive.  Allocations are numbered; an allocation is released
+   as soon as no owner is left.  [own] = the views hold a share (the code as it is); [own = false]
+   is the non-owning variant (a bare pointer into the writer's storage). *)
+Record lstate := {
+  l_heap : nat -> option (list N);       (* None = not allocated / released               *)
+  l_next : nat;                          (* next fresh allocation number                  *)
+  l_wr : option (nat * Z);               (* the writer, if alive: its allocation, cursor  *)
+  l_views : list (nat * Z)               (* views handed out so far: allocation, size     *)
+}.
+
+Inductive lop :=
+| LStep (o : fop)                        (* write / reserve on the writer                 *)
+| LView                                  (* v = getWrittenView()                          *)
+| LKill                                  (* the FixedBufferWriter is destroyed            *)
+| LReseat (n : Z) (b : N).               (* *writer.buffer = vector(n, b); cursor = 0     *)
+
+Definition hupd (h : nat -> option (list N)) (i : nat) (v : option (list N)) : nat -> option (list N) :=
+  fun j => if Nat.eqb j i then v else h j.
+
+Definition l_owned (own : bool) (wr : option (nat * Z)) (views : list (nat * Z)) (j : nat) : bool :=
+  match wr with Some (i, _) => Nat.eqb i j | None => false end ||
+  (own && existsb (fun v => Nat.eqb (fst v) j) views).
+
+(* release every allocation that no owner holds any more *)
+Definition l_gc (own : bool) (st : lstate) : lstate :=
+  {| l_heap := fun j => if l_owned own (l_wr st) (l_views st) j then l_heap st j else None;
+     l_next := l_next st; l_wr := l_wr st; l_views := l_views st |}.
+
+Inductive lout := LOut (o : fout) | LViewed (size : Z) | LDone | LDead.
+
+Definition l_step (own : bool) (st : lstate) (op : lop) : lstate * lout :=
+  match op with
+  | LStep o =>
+      match l_wr st with
+      | Some (i, cur) =>
+          match l_heap st i with
+          | Some bytes =>
+              let (w', out) := fbw_step {| f_bytes := bytes; f_cur := cur |} o in
+              ({| l_heap := hupd (l_heap st) i (Some (f_bytes w')); l_next := l_next st;
+                  l_wr := Some (i, f_cur w'); l_views := l_views st |}, LOut out)
+          | None => (st, LDead)
+          end
+      | None => (st, LDead)
+      end
+  | LView =>
+      match l_wr st with
+      | Some (i, cur) =>
+          ({| l_heap := l_heap st; l_next := l_next st; l_wr := l_wr st;
+              l_views := l_views st ++ [(i, cur)] |}, LViewed cur)
+      | None => (st, LDead)
+      end
+  | LKill =>
+      match l_wr st with
+      | Some _ =>
+          (l_gc own {| l_heap := l_heap st; l_next := l_next st; l_wr := None; l_views := l_views st |}, LDone)
+      | None => (st, LDead)
+      end
+  | LReseat n b =>
+      match l_wr st with
+      | Some _ =>
+          let j := l_next st in
+          (l_gc own {| l_heap := hupd (l_heap st) j (Some (repeat b (Z.to_nat n))); l_next := S j;
+                       l_wr := Some (j, 0); l_views := l_views st |}, LDone)
+      | None => (st, LDead)
+      end
+  end.
+
+(* reading all bytes of a view; None = the storage it points into was released *)
+Definition l_read_view (st : lstate) (v : nat * Z) : option (list N) :=
+  match l_heap st (fst v) with
+  | Some bytes => fetch bytes 0 (snd v)
+  | None => None
+  end.
+
+(* FixedBufferWriter w(cap) with the storage filled by the background byte *)
+Definition l_init (cap : Z) (bg : N) : lstate :=
+  {| l_heap := hupd (fun _ => None) O (Some (repeat bg (Z.to_nat cap))); l_next := 1%nat;
+     l_wr := Some (O, 0); l_views := [] |}.
+
+Definition l_run (own : bool) (st : lstate) (ops : list lop) : lstate :=
+  fold_left (fun st op => fst (l_step own st op)) ops st.
